@@ -229,6 +229,15 @@ Holds(e, name) ==
     [] name = "C07_Premise" -> VecZero(g, FieldOf(g, o.divu))
     [] name = "C07_SignStructure" -> C07_SignStructure(g, MatOf(o.Mdiff), MatOf(o.Mup), MatOf(o.Msrc))
     [] name = "C07_Hull" -> C07_Hull(o.steps)
+    [] name = "C08_Geometry"  -> C08_Geometry(cf.tr, g, MeshOf(cf.big))
+    [] name = "C08_Diffusion" -> C08_Apply(cf.tr, g, MeshOf(cf.big), MatOf(o.Mdiff), MatOf(o.B.Mdiff), FieldOf(g, cf.phi))
+    [] name = "C08_Central"   -> C08_Apply(cf.tr, g, MeshOf(cf.big), MatOf(o.Mconv), MatOf(o.B.Mconv), FieldOf(g, cf.phi))
+    [] name = "C08_Upwind"    -> C08_Apply(cf.tr, g, MeshOf(cf.big), MatOf(o.Mup), MatOf(o.B.Mup), FieldOf(g, cf.phi))
+    [] name = "C08_Ghost"     -> C08_Field(cf.tr, g, MeshOf(cf.big), FieldOf(g, o.ghost), FieldOf(MeshOf(cf.big), o.B.ghost))
+    [] name = "C08_Tvd"       -> \A k \in DOMAIN o.tvdnamed :
+         \A cb \in Interior(MeshOf(cf.big)) :
+            FieldOf(MeshOf(cf.big), o.B.tvdnamed[k])[cb] = FieldOf(g, o.tvdnamed[k])[Pre(cf.tr, g, cb)]
+    [] name = "C08_Solve"     -> C08_Field(cf.tr, g, MeshOf(cf.big), FieldOf(g, o.r_solve), FieldOf(MeshOf(cf.big), o.B.r_solve))
     [] name = "C04_DiffInterior" -> InteriorRowsOnly(g, MatOf(o.Mdiff))
     [] name = "C04_ConvInterior" -> InteriorRowsOnly(g, MatOf(o.Mconv))
     [] name = "C04_UpInterior"   -> InteriorRowsOnly(g, MatOf(o.Mup))
